@@ -433,11 +433,13 @@ func (x *exec) memLab(seed int) {
 	}
 	for k := 0; k < 4 && !x.stop; k++ {
 		var a uint64
-		switch r.Intn(4) {
-		case 0, 1:
+		switch r.Intn(9) {
+		case 0, 1, 2, 3:
 			a = stored[r.Intn(len(stored))]
-		case 2:
+		case 4, 5:
 			a = base + uint64(r.Intn(64))
+		case 6:
+			a = ^uint64(0) // the last address there is
 		default:
 			a = base + 4096 + uint64(r.Intn(64))
 		}
@@ -1315,7 +1317,7 @@ func ownerOfCrash(fn string) string {
 }
 
 func (e *Engine) Describe(prop string) core.Description {
-	d := core.Description{QuickRuns: 2500}
+	d := core.Description{QuickRuns: 8000}
 	base := "Each run = one whole interactive session (real consoleui.UI.Run with the real disassembler, emulator and memory-view modes, real line reader, real terminal-size ioctl on a pty owned by the worker, real rendering to a captured stdout) on a generated RV64IMA program loaded by the real pipeline. A seeded simulated user chooses 1-40 (thorough: up to 120) input lines reacting to what the tool printed: every command and alias of the current mode with in-range, boundary, huge, negative and non-numeric arguments, odd spacing, blank and garbage lines, numbers in every base at value prompts; the scheduler injects terminal resizes (1-300 rows, biased around the view minimum), a non-terminal stdin for one render, and stream faults (split lines, glued lines, CRLF, over-long line, EOF, read error; stream end only at non-value prompts). The recorded trace holds concrete events only and is re-executed with the oracles. "
 	switch prop {
 	case "C22":
